@@ -289,9 +289,81 @@ static int tie(uint64_t seed, int n)
    return 0;
 }
 
+/* ---- poke: which members does a later call read before writing?  One member of a copy is overwritten
+   (with the value the same member holds in a freshly initialised object, then in an earlier state of the same
+   history: always a value the member can legitimately hold) either right after OPUS_RESET_STATE (when = 0) or in the middle of a history
+   (when = 1); the suffix of the history is run on both; the member is SENSITIVE if any later output differs or
+   the call crashes (each experiment runs in a forked child). ---- */
+#include <sys/wait.h>
+#define MAXREF 160
+static int build_refs(int kind, const void *obj, FRef *refs)
+{
+   int i, n = 0;
+   if (kind == K_ENC) {
+      const OpusEncoder *e = (const OpusEncoder *)obj;
+      for (i = 0; i < NF(ENCF); i++) if ((ENCF[i].kind == 'I' || ENCF[i].kind == 'F') && !is_structural(ENCF[i].name)) { refs[n].tag = "enc"; refs[n].base = 0; refs[n++].f = &ENCF[i]; }
+      for (i = 0; i < NF(SILKF); i++) if (strcmp(SILKF[i].name, "API_sampleRate")) { refs[n].tag = "silk_mode"; refs[n].base = offsetof(OpusEncoder, silk_mode); refs[n++].f = &SILKF[i]; }
+      for (i = 0; i < NF(CELTF); i++) if (CELTF[i].kind == 'I' && !is_structural(CELTF[i].name) && strcmp(CELTF[i].name, "channels") && strcmp(CELTF[i].name, "arch")) {
+         refs[n].tag = "celt"; refs[n].base = e->celt_enc_offset; refs[n++].f = &CELTF[i]; }
+   } else {
+      for (i = 0; i < NF(DECF); i++) if (DECF[i].kind == 'I' && !is_structural(DECF[i].name)) { refs[n].tag = "dec"; refs[n].base = 0; refs[n++].f = &DECF[i]; }
+      for (i = 0; i < NF(SILKDF); i++) if (strcmp(SILKDF[i].name, "API_sampleRate") && strcmp(SILKDF[i].name, "nChannelsAPI")) { refs[n].tag = "DecControl"; refs[n].base = offsetof(OpusDecoder, DecControl); refs[n++].f = &SILKDF[i]; }
+   }
+   return n;
+}
+static int poke(int kind, uint64_t seed, int first, int count, int when)
+{
+   static Case c; static FRef refs[MAXREF]; static long trials[MAXREF], sens[MAXREF], crash[MAXREF];
+   int nref = 0, idx, i, v;
+   for (idx = first; idx < first + count; idx++) {
+      Obj a, donor[2]; int err, half;
+      gen_case(&c, 1, kind, seed, idx);
+      g_fill = 0xA5; a = obj_new(&c); donor[0] = obj_new(&c); g_fill = -1;      /* donor 0: freshly initialised */
+      donor[1].kind = a.kind; donor[1].size = a.size; donor[1].p = malloc(a.size);
+      half = when == 0 ? c.cut : c.cut / 2;                                       /* donor 1: an earlier state of the same history */
+      memcpy(donor[1].p, a.p, a.size);
+      for (i = 0; i < c.cut; i++) { run_op(&c, &a, &c.ops[i], &g_ra[i]); if (i + 1 == half) memcpy(donor[1].p, a.p, a.size); }
+      if (when == 0) { err = kind == K_ENC ? ECTL(&a, OPUS_RESET_STATE) : DCTL(&a, OPUS_RESET_STATE); if (err) exit(70); }
+      nref = build_refs(kind, a.p, refs);
+      run_suffix(&c, &a, g_rf);
+      fflush(stdout);
+      for (i = 0; i < nref; i++) {
+         int hit = 0, died = 0, tried = 0, off = refs[i].base + refs[i].f->off, sz = refs[i].f->size;
+         for (v = 0; v < 2 && !hit; v++) {
+            pid_t pid;
+            if (!memcmp((char *)a.p + off, (char *)donor[v].p + off, sz)) continue;     /* the donor holds the same value */
+            tried = 1;
+            pid = fork();
+            if (pid == 0) {
+               Obj t = a;
+               signal(SIGABRT, SIG_DFL); signal(SIGSEGV, SIG_DFL); if (!freopen("/dev/null", "w", stderr)) _exit(3);
+               t.p = malloc(a.size); memcpy(t.p, a.p, a.size);
+               memcpy((char *)t.p + off, (char *)donor[v].p + off, sz);
+               run_suffix(&c, &t, g_rt);
+               _exit(first_diff(&c, g_rf, g_rt) < 0 ? 0 : 1);
+            } else {
+               int st = 0; waitpid(pid, &st, 0);
+               if (WIFEXITED(st)) { if (WEXITSTATUS(st) == 1) hit = 1; else if (WEXITSTATUS(st) != 0) { hit = 1; died = 1; } }
+               else { hit = 1; died = 1; }
+            }
+         }
+         trials[i] += tried; sens[i] += hit; crash[i] += died;
+      }
+      obj_free(&a); obj_free(&donor[0]); obj_free(&donor[1]); free_case(&c);
+   }
+   for (i = 0; i < nref; i++)
+      printf("K %s %d %s.%s trials=%ld sens=%ld crash=%ld\n", KNAME[kind], when, refs[i].tag, refs[i].f->name, trials[i], sens[i], crash[i]);
+   return 0;
+}
+
 int main(int argc, char **argv)
 {
    vinstall_traps();
+   if (argc >= 7 && !strcmp(argv[1], "poke")) {
+      int kind; for (kind = 0; kind < NKIND && strcmp(argv[2], KNAME[kind]); kind++);
+      if (kind != K_ENC && kind != K_DEC) return 64;
+      return poke(kind, strtoull(argv[3], NULL, 10), atoi(argv[4]), atoi(argv[5]), atoi(argv[6]));
+   }
    if (argc >= 4 && !strcmp(argv[1], "tie")) return tie(strtoull(argv[2], NULL, 10), atoi(argv[3]));
    if (argc >= 6 && !strcmp(argv[1], "attrib")) {
       int kind, i, first = atoi(argv[4]), n = atoi(argv[5]), hits = 0;
